@@ -266,6 +266,17 @@ func (s *Scope) Decorate(decorator interface{}, opts ...DecorateOption) error {
 	if err != nil {
 		return err
 	}
+	// Check every key before registering any of them, so that a decorator
+	// rejected because of its second (or a repeated) key leaves nothing behind.
+	seenKeys := make(map[key]struct{}, len(keys))
+	for _, k := range keys {
+		_, repeated := seenKeys[k]
+		if _, ok := s.decorators[k]; ok || repeated {
+			return newErrInvalidInput(
+				fmt.Sprintf("cannot decorate using function %v: %s already decorated", dn.dtype, k), nil)
+		}
+		seenKeys[k] = struct{}{}
+	}
 	for _, k := range keys {
 		if _, ok := s.decorators[k]; ok {
 			return newErrInvalidInput(
